@@ -28,4 +28,4 @@ class Canonical:
     Returns:
       bool
     """
-    return self.from_orient() == "+"
+    return self.from_orient == "+"
